@@ -174,3 +174,10 @@ package main
 //@ order_insensitive main.computeFieldToStruct map-order#0 because every iteration only adds fieldToStruct[origin field] = struct entries keyed by the field; recordFieldToStruct panics if two structs claim one field, so the resulting map does not depend on the visiting order
 //@ order_insensitive main.(*reflectInspector).ignoreReflectedTypes map-order#0 because the pass only adds entries to the ReflectAPIs / ReflectObjectNames sets and is iterated to a fix-point by recordReflection; an order-dependent result was looked for (38 rebuilds, DESIGN section 12) and not found
 //@ order_insensitive ctrlflow.(*trashGenerator).cacheMethods map-order#0 because each iteration fills methodCache[type] once per distinct type from that type's own method set; the cache content is independent of the visiting order
+
+// ---- C15: struct identity hash ----
+
+//@ func (typeutil_hasher).hash
+//@   property C15
+//@   trusted bundled x/tools type hasher; only the dependency set of its struct case is an obligation here
+//@   case_calls *types.Struct: NumFields, Field, Anonymous, Name, typeutil_hashString
